@@ -115,6 +115,11 @@ static void merge_scenario(Report& rep, const char* name, uint64_t seed, int src
 			std::set<int64_t> dk; for (auto& p : d1) dk.insert(keyof(p.first));
 			for (auto& p : s1) if (MD::multi || !dk.count(keyof(p.first))) rep.fail(tag + ": item " + std::to_string(p.first) + " stayed in the source although the destination accepts it");
 		}
+		{	// both trees are still in key order (also after a throw): a later merge / search relies on it
+			std::string o1 = tree_order_error(src, MS::multi, 0), o2 = tree_order_error(dst, MD::multi, 0);
+			if (!o1.empty()) rep.fail(tag + ": source tree out of key order: " + o1);
+			if (!o2.empty()) rep.fail(tag + ": destination tree out of key order: " + o2);
+		}
 		if (MD::multi && tree_height(dst, 0) > 0)
 		{
 			// multi-key tree destination: among equivalent keys the destination's own items stay BEFORE the merged-in source items
